@@ -28,11 +28,64 @@ import p_range
 
 
 class Prover:
-    def __init__(self, ps, idx=None, idx_upper=None):
+    def __init__(self, ps, idx=None, idx_upper=None, idx_value=None):
         self.ps = ps
         self.idx = idx
         self.idx_upper = idx_upper     # replaces the recorded (strict) upper bound of the loop index for this goal
+        self.idx_value = idx_value     # the goal is about this particular iteration (guards are judged with it)
         self.steps = 0
+
+    # -- facts a guard gives
+    @staticmethod
+    def _single_atom(p):
+        if len(p.t) == 1 and list(p.t.values()) == [1] and len(list(p.t)[0]) == 1:
+            return list(p.t)[0][0]
+        return None
+
+    def _guard_facts(self, rel):
+        """(zero atoms, non-zero atoms) implied by a guard `A op B is truth`."""
+        if rel is None:
+            return frozenset(), frozenset()
+        op, A, B, truth = rel
+        if not A.t and B.t:        # constant on the left: mirror
+            A, B = B, A
+            op = {"Gt": "Lt", "Lt": "Gt", "Ge": "Le", "Le": "Ge"}.get(op, op)
+        x = self._single_atom(A)
+        if x is None or any(k for k in B.t):
+            return frozenset(), frozenset()
+        k = B.t.get((), 0)
+        is_zero = (op == "Gt" and k == 0 and not truth) or (op == "Ne" and k == 0 and not truth) or (op == "Eq" and k == 0 and truth) \
+            or (op == "Ge" and k == 1 and not truth) or (op == "Lt" and k == 1 and truth) or (op == "Le" and k == 0 and truth)
+        non_zero = (op == "Gt" and k == 0 and truth) or (op == "Ne" and k == 0 and truth) or (op == "Eq" and k == 0 and not truth) \
+            or (op == "Ge" and k == 1 and truth) or (op == "Lt" and k == 1 and not truth) or (op == "Le" and k == 0 and not truth)
+        return (frozenset([x]) if is_zero else frozenset()), (frozenset([x]) if non_zero else frozenset())
+
+    def _refuted(self, rel, zero, nz, depth):
+        """The guard cannot hold in the iteration / index range this goal is about."""
+        if rel is None:
+            return False
+        op, A, B, truth = rel
+        if self.idx is not None and self.idx_value is not None:
+            A = _deep_subst(self.ps, A, self.idx, self.idx_value, "g")
+            B = _deep_subst(self.ps, B, self.idx, self.idx_value, "g")
+        d = A - B
+        one = Poly.const(1)
+        pr = lambda q_: self.prove(q_, zero, nz, depth + 1)
+        if not truth:
+            op = {"Eq": "Ne", "Ne": "Eq", "Lt": "Ge", "Ge": "Lt", "Gt": "Le", "Le": "Gt"}[op]
+        if op == "Eq":
+            return pr(d - one) or pr(-d - one)
+        if op == "Ne":
+            return pr(d) and pr(-d)
+        if op == "Lt":          # A < B refuted by A >= B
+            return pr(d)
+        if op == "Le":
+            return pr(d - one)
+        if op == "Gt":
+            return pr(-d)
+        if op == "Ge":
+            return pr(-d - one)
+        return False
 
     # -- helpers
     def _minmax_args(self, a):
@@ -42,27 +95,38 @@ class Prover:
             return "max", self.ps.lower.get(a, [])
         return None, []
 
-    def _div_bounds(self, a, zero):
-        """(lower, upper) of D*beta for atom a = D, as polynomials, with beta the (single-atom) divisor; or None."""
+    def _rem_atom(self, A, B):
+        nm = "rem(%s, %s)" % (A, B)
+        ps = self.ps
+        if nm not in ps.known:
+            ps.known[nm] = "integer rem (introduced by the division lemma)"
+            ps.divinfo[nm] = ("Rem", A, B)
+            ps.upper[nm] = [A, B]
+        return nm
+
+    def _div_bounds(self, a, zero, nz):
+        """(beta, lower, upper) of D*beta for the quotient atom a = D with the single-atom divisor beta, or None.
+        a / b * b == a - a % b;  div_ceil(a, b) * b == a when a % b == 0, a - a % b + b otherwise."""
         info = self.ps.divinfo.get(a)
         if not info:
             return None
         op, A, B = info
-        if len(B.t) != 1 or list(B.t.values()) != [1] or len(list(B.t)[0]) != 1:
+        beta = self._single_atom(B)
+        if beta is None or op not in ("Div", "DivCeil"):
             return None
-        beta = list(B.t)[0][0]
+        R = self._rem_atom(A, B)
+        Rp = Poly() if R in zero else Poly.atom(R)
         if op == "Div":
-            rem = "rem" + a[3:] if a.startswith("div(") else None
-            if rem is not None and rem in zero:
-                return beta, A, A
-            return beta, A - B + Poly.const(1), A
-        if op == "DivCeil":
-            return beta, A, A + B - Poly.const(1)
-        return None
+            return beta, A - Rp, A - Rp
+        if R in zero:
+            return beta, A, A
+        if R in nz:
+            return beta, A - Rp + B, A - Rp + B
+        return beta, A, A + B - Poly.const(1)
 
-    def prove(self, p, zero=frozenset(), depth=0):
+    def prove(self, p, zero=frozenset(), nz=frozenset(), depth=0):
         self.steps += 1
-        if self.steps > 4000 or depth > 10:
+        if self.steps > 20000 or depth > 12:
             return False
         for z in zero:
             if z in p.atoms():
@@ -70,18 +134,23 @@ class Prover:
         if p.nonneg():
             return True
         ps = self.ps
-        # 1. a value that is one of several, by control flow: every alternative, with the facts its path gives
+        # 1. a value that is one of several, by control flow: every alternative whose guard can hold here, with the
+        #    facts that guard gives (substituted inside min/max arguments as well: the same choice everywhere)
         for a in sorted(ps.phi):
             if _mentions(ps, p, a):
-                zs = ps.phi_zero.get(a) or [frozenset()] * len(ps.phi[a])
-                # (substituted inside min/max arguments as well: the same choice everywhere)
-                return all(self.prove(_deep_subst(ps, p, a, alt, "%s=%s" % (a, alt)), zero | z, depth + 1)
-                           for alt, z in zip(ps.phi[a], zs))
+                gs = ps.phi_guard.get(a) or [dict(rel=None, known=True)] * len(ps.phi[a])
+                todo = []
+                for alt, g_ in zip(ps.phi[a], gs):
+                    if self._refuted(g_["rel"], zero, nz, depth):
+                        continue
+                    z, n_ = self._guard_facts(g_["rel"])
+                    todo.append((alt, zero | z, nz | n_))
+                return all(self.prove(_deep_subst(ps, p, a, alt, "%s=%s" % (a, alt)), z, n_, depth + 1) for alt, z, n_ in todo)
         # 2. remainder atoms: 0 <= a % b <= b - 1
         # 3. products D*beta of a quotient and its divisor
         for k, v in sorted(p.t.items()):
             for a in sorted(set(k)):
-                db = self._div_bounds(a, zero)
+                db = self._div_bounds(a, zero, nz)
                 if db is None:
                     continue
                 beta, lo, hi = db
@@ -94,7 +163,7 @@ class Prover:
                 for x in rest:
                     term = term * Poly.atom(x)
                 q_ = Poly({kk: vv for kk, vv in p.t.items() if kk != k}) + term
-                if self.prove(q_, zero, depth + 1):
+                if self.prove(q_, zero, nz, depth + 1):
                     return True
         # 4. min / max
         for k, v in sorted(p.t.items()):
@@ -106,11 +175,11 @@ class Prover:
                 one_sided = (kind == "min" and v < 0) or (kind == "max" and v > 0)
                 alts = [poly.Sym._subst_in_term(p, k, a, b) for b in args]
                 if one_sided:
-                    if any(self.prove(x, zero, depth + 1) for x in alts):
+                    if any(self.prove(x, zero, nz, depth + 1) for x in alts):
                         return True
                 elif len(args) == 2 and a not in ps.weak:
                     # min(x, y) is x or y: both must do
-                    if all(self.prove(x, zero, depth + 1) for x in alts):
+                    if all(self.prove(x, zero, nz, depth + 1) for x in alts):
                         return True
         # 5. one-sided bounds of the loop index and other bounded atoms
         for k, v in sorted(p.t.items()):
@@ -125,9 +194,11 @@ class Prover:
                     bounds = [ps.divinfo[a][2] - Poly.const(1)] + ps.upper.get(a, [])
                 else:
                     bounds = ps.lower.get(a, []) if v > 0 else ps.upper.get(a, [])
+                    if v > 0 and a in nz:
+                        bounds = [Poly.const(1)] + list(bounds)
                 for b in bounds:
                     q_ = poly.Sym._subst_in_term(p, k, a, b)
-                    if q_ is not None and self.prove(q_, zero, depth + 1):
+                    if q_ is not None and self.prove(q_, zero, nz, depth + 1):
                         return True
         return False
 
@@ -228,14 +299,14 @@ def jobs_tile_range(fx):
         bytes_last = _deep_subst(ps, nbytes, I, hi - one, "idx=hi-1")
         goals = []
         # T1
-        goals.append(("first-at-start", "off(lo) == range.start", lambda: Prover(ps, I).prove_zero(off_lo - start)))
+        goals.append(("first-at-start", "off(lo) == range.start", lambda: Prover(ps, I, idx_value=lo).prove_zero(off_lo - start)))
         # T2
         step = off_next - off - nbytes
         goals.append(("adjacent", "off(idx+1) == off(idx) + bytes(idx) for idx <= hi-2",
                       lambda: Prover(ps, I, hi - one - one).prove(step) and Prover(ps, I, hi - one - one).prove(-step)))
         # T3
         goals.append(("last-at-end", "off(hi-1) + bytes(hi-1) >= range.end",
-                      lambda: Prover(ps, I).prove(off_last + bytes_last - end)))
+                      lambda: Prover(ps, I, idx_value=hi - one).prove(off_last + bytes_last - end)))
         # T0
         clamp = None
         for a in nbytes.atoms():
